@@ -25,6 +25,8 @@ import numpy as np
 from . import seams
 
 VERIF = os.path.dirname(os.path.dirname(os.path.abspath(__file__)))
+# outputs of runs against a scratch copy (mutant runs) go elsewhere so that they never clobber the real evidence
+OUT = os.environ.get("VERIF_OUT_DIR", VERIF)
 NPROC = int(os.environ.get("VERIF_JOBS", str(os.cpu_count() or 4)))
 MASK = (1 << 64) - 1
 
@@ -328,7 +330,7 @@ def run(prop, tier: str, seed: int) -> int:
             lines.append(f"KNOWN-FINDING: property={prop.ID} {entry['signature']}: {entry['description']} ({nviol[sig]} cases this run)")
             continue
         n_unknown += 1
-        rdir = os.path.join(VERIF, "replays", prop.ID)
+        rdir = os.path.join(OUT, "replays", prop.ID)
         os.makedirs(rdir, exist_ok=True)
         path = os.path.join(rdir, _safe(sig) + ".json")
         with open(path, "w") as f:
@@ -369,8 +371,8 @@ def run(prop, tier: str, seed: int) -> int:
         wall_s=round(wall, 2),
         violations=sum(nviol.values()),
     )
-    os.makedirs(os.path.join(VERIF, "evidence"), exist_ok=True)
-    evp = os.path.join(VERIF, "evidence", prop.ID + ".json")
+    os.makedirs(os.path.join(OUT, "evidence"), exist_ok=True)
+    evp = os.path.join(OUT, "evidence", prop.ID + ".json")
     with open(evp, "w") as f:
         json.dump(ev, f, indent=1, default=_jsonable)
         f.write("\n")
